@@ -64,7 +64,10 @@ OPS = ["holo", "holo-shifted", "holo-moved", "field", "intensity", "subset",
 
 
 def cases(tier, seed):
-    out = [{"id": "detector-construction-histories", "kind": "detbuild",
+    out = [{"id": "cluster-ladder:Multisphere", "kind": "clusterladder",
+            "sizes": ["small", "big"] if tier == "quick" else
+            ["small", "medium", "big"]},
+           {"id": "detector-construction-histories", "kind": "detbuild",
             "depth": 2 if tier == "quick" else 3}]
     for th in TH_TIER[tier]:
         for shp in SHAPE_TIER[tier]:
@@ -376,6 +379,50 @@ def _run_mixedz(case, ck):
                 "x", "y", "z").values[:, :, 0].ravel(), "%s: z=0 points vs "
                 "grid" % th)
     return digest(*fps)
+
+
+_LADDER_DET = {}
+
+
+def _cluster_op(name):
+    """clusters of different expansion order on detectors that are shared
+    between the calls: a point list on a ring around the clusters' common
+    centre, a grid centred on it, and the grid's corner pixel as a point"""
+    import warnings
+    import holopy as hp
+    from holopy.scattering import calc_holo, Sphere, Spheres, Multisphere
+    if not _LADDER_DET:
+        _LADDER_DET["ring"] = hp.detector_points(
+            x=2.0 + 3.0 * np.cos(np.arange(5) * 1.1),
+            y=2.0 + 3.0 * np.sin(np.arange(5) * 1.1), z=0.0)
+        _LADDER_DET["grid"] = hp.detector_grid((5, 5), 1.0)
+        _LADDER_DET["corner"] = hp.detector_points(
+            x=np.array([0.0, 4.0]), y=np.array([0.0, 4.0]), z=0.0)
+    size, dk = name.split("@")
+    r = {"small": 0.15, "medium": 0.4, "big": 0.8}[size]
+    sc = Spheres([Sphere(n=1.59, r=r, center=(2.0 - 1.1 * r, 2.0, 6.0)),
+                  Sphere(n=1.59, r=r, center=(2.0 + 1.1 * r, 2.0, 6.0))])
+    with warnings.catch_warnings():
+        warnings.simplefilter("ignore")
+        v = calc_holo(_LADDER_DET[dk], sc, H.NMED, H.WL, (1, 0),
+                      theory=Multisphere()).values
+    return [float(x) for x in np.asarray(v).ravel()]
+
+
+def _run_clusterladder(case, ck):
+    from lib import pair_ladder
+    names = ["%s@%s" % (s_, d) for d in ("ring", "grid", "corner")
+             for s_ in case.get("sizes", ["small", "big"])]
+    fp = pair_ladder(ck, names, _cluster_op, "value-depends-on-history",
+                     tol=1e-9)
+    # the corner pixels of the grid and the same locations as points
+    g = np.array(_cluster_op("big@grid")).reshape(5, 5)
+    p = np.array(_cluster_op("big@corner"))
+    e = float(max(abs(g[0, 0] - p[0]), abs(g[4, 4] - p[1])))
+    ck.true("grid-equals-points:after-history", e <= 1e-9,
+            "corner pixels of the grid differ from the same locations as "
+            "points by %.2e" % e)
+    return fp
 
 
 DETOPS = ["pts(d)", "pts(d,z=5)", "pts(d,z=array)", "pts(d,name)",
@@ -1020,6 +1067,7 @@ def run_case(case):
           "mixedz": _run_mixedz, "biglarge": _run_biglarge,
           "gridfar": _run_gridfar, "lenscounts": _run_lenscounts,
           "coordforms": _run_coordforms, "detbuild": _run_detbuild,
+          "clusterladder": _run_clusterladder,
           "history": _run_history}[case["kind"]](case, ck)
     return ck.result(fp=fp)
 
